@@ -20,6 +20,12 @@ CHECKS = {
         text='All programs p1 op ... pn with op in {; && ||} and statuses {0,1} up to n = 5 (thorough 6), all programs up to n = 2 (3) with statuses {0,1,2,255}, decoy variants with quoted/escaped operators and two-stage pipelines as members, run by the real binary with -c and as script files; the record sequence, every $? probe and the process exit status must equal a reference interpreter.',
         note='Programs longer than the bound and the interactive entry point are outside; every pipeline is a recording helper program.',
         ref='DESIGN.md §4 C03'),
+    'C04': dict(
+        engine='E1 bounded-exhaustive enumeration of redirection sequences on the real binary',
+        technique='bounded-exhaustive enumeration of all redirection sequences x commands x spellings x target states, executed by the real binary and compared with a reference descriptor-table model (open file descriptions, left-to-right application)',
+        text='All sequences of up to 2 (thorough 3) redirections over {>f >>f 1>f 2>f 2>>f 2>&1 1>&2 >&2 <g <<<w} with two target files, spaced and attached, on an external program alone and as first/middle/last stage of a three-stage pipeline and on the builtins alias (stdout), unalias (stderr) and read (stdin), with targets absent / present / unopenable, each followed by a command that must be unaffected, are executed by the real binary (924 / 9064 cases); file contents, bytes on the line stdout/stderr, stdin seen, status and not-started-on-unopenable must match the reference model.',
+        note='Descriptors 1 and 2, two files; redirection combined with output capture not covered; nine builtin classes are open known findings (builtins resolve redirections by look-ahead).',
+        ref='DESIGN.md §4 C04'),
     'C05': dict(
         engine='E1 bounded-exhaustive input sweep (in-process) + real binary',
         technique='bounded-exhaustive enumeration of all input strings up to a length over explicit alphabets, run through the real code (explicit-state style exploration, no sampling)',
